@@ -685,7 +685,8 @@ class Interp:
 
     def e_Subscript(self, e, env, module, cls):
         o = self.eval(e.value, env, module, cls)
-        if isinstance(o, (External, BuiltinClass, ClassRef)) and not isinstance(e.slice, ast.Slice):
+        is_enum = isinstance(o, ClassRef) and (o.info.is_subclass_of("Enum") or o.info.is_subclass_of("enum.Enum"))
+        if isinstance(o, (External, BuiltinClass, ClassRef)) and not isinstance(e.slice, ast.Slice) and not is_enum:
             return o     # typing subscripts such as cast(list[str], x) / Type[X]
         if isinstance(e.slice, ast.Slice):
             lo = self.eval(e.slice.lower, env, module, cls) if e.slice.lower is not None else None
